@@ -14,11 +14,9 @@ UNITS = [
     Unit(name="Pointer::key", file=F, impl=PTR, fn="key", order=1, status="assumed", serves=["C03"],
          why_assumed="format!/starts_with — no string reasoning in Verus; text checked by the bounded back end (Pointer.text)",
          ensures=[("inner", "r.inner == inner"), ("path", "r.path@ == key_path(path@, key@)")]),
-    Unit(name="Pointer::empty", file=F, impl=PTR, fn="empty", order=1, status="assumed", serves=["C05"],
-         why_assumed="String::new() view — vstd has no spec for it",
+    Unit(name="Pointer::empty", file=F, impl=PTR, fn="empty", order=1, serves=["C05"],
          ensures=[("inner", "r.inner == inner"), ("path", "r.path@.len() == 0")]),
-    Unit(name="Pointer::is_internal", file=F, impl=PTR, fn="is_internal", order=1, status="assumed", serves=["C05"],
-         why_assumed="String::is_empty — vstd has no spec for it",
+    Unit(name="Pointer::is_internal", file=F, impl=PTR, fn="is_internal", order=1, serves=["C05"],
          ret_name="b", ensures=[("def", "b == (self.path@.len() == 0)")]),
     # ---- Data ----
     Unit(name="Data::default", file=F, impl="impl<'a, T: Queryable> Default for Data<'a, T>", fn="default", order=2,
